@@ -22,14 +22,15 @@ const pid = "C14"
 
 // Op is one step: a delivery, a raw HTTP request or a call of the bundled Go client.
 type Op struct {
-	K    string `json:"k"`    // deliver | http | client
-	Addr int    `json:"addr"` // index into the address pool
-	Verb string `json:"verb"` // list show source uisource uimsg uihtml seen seenfalse seenjunk delete purge | client: list get source seen delete purge hget hsource hdelete
-	Ref  hx.Ref `json:"ref"`
-	Subj string `json:"subj,omitempty"`
-	Body string `json:"body,omitempty"`
-	Ask  int    `json:"ask"`            // how the name is spelled in the request: 0 mailbox name, 1 original address, 2 re-cased
-	Many int    `json:"many,omitempty"` // deliver: this many messages in a row
+	K      string `json:"k"`    // deliver | http | client
+	Addr   int    `json:"addr"` // index into the address pool
+	Verb   string `json:"verb"` // list show source uisource uimsg uihtml seen seenfalse seenjunk delete purge | client: list get source seen delete purge hget hsource hdelete
+	Ref    hx.Ref `json:"ref"`
+	Subj   string `json:"subj,omitempty"`
+	Body   string `json:"body,omitempty"`
+	BigKiB int    `json:"big_kib,omitempty"` // the body is preceded by this many KiB of filler lines
+	Ask    int    `json:"ask"`               // how the name is spelled in the request: 0 mailbox name, 1 original address, 2 re-cased
+	Many   int    `json:"many,omitempty"`    // deliver: this many messages in a row
 }
 
 type Case struct {
@@ -71,6 +72,11 @@ var opGen = rapid.Custom(func(t *rapid.T) Op {
 		op.K = "deliver"
 		op.Subj = rapid.SampledFrom([]string{"hello", "second", "x y z"}).Draw(t, "subj")
 		op.Body = rapid.SampledFrom([]string{"plain text\r\n", "two\r\nlines\r\n", "", "http://example.com/ link\r\n"}).Draw(t, "body")
+		// one delivery in eight carries over a mebibyte of text: responses that no single read
+		// and no fixed buffer on the client side holds (added in round m)
+		if op.Body != "" && rapid.IntRange(0, 7).Draw(t, "big") == 0 {
+			op.BigKiB = rapid.IntRange(1030, 1400).Draw(t, "bigkib")
+		}
 	case 3, 4, 5, 6:
 		op.K = "http"
 		op.Verb = rapid.SampledFrom([]string{"list", "show", "source", "uisource", "uimsg", "uihtml", "seen", "seen", "seenfalse", "seenjunk", "delete", "delete", "purge", "uiattach", "uiattach"}).Draw(t, "verb")
@@ -302,6 +308,9 @@ func run(c Case) *hx.Outcome {
 				if body != "" {
 					deliveries++
 					token = fmt.Sprintf("zqd%dqz", deliveries)
+					if op.BigKiB > 0 {
+						body = strings.Repeat(strings.Repeat("f", 62)+"\r\n", op.BigKiB*16) + body
+					}
 					body += "delivery " + token + "\r\n"
 				}
 				msg := &hx.MailMsg{From: &hx.Addr{Name: "Sender", Address: "from@a.test"}, To: []hx.Addr{{Address: addr}}, Subject: subj, Body: []byte(body)}
